@@ -1,4 +1,6 @@
 import Pms.Lemmas.LocalOrder
+import Mathlib.Tactic.IntervalCases
+import Mathlib.Data.List.Perm.Subperm
 
 /-!
 # C17 — local order parameters equal their definitions
@@ -6,6 +8,7 @@ import Pms.Lemmas.LocalOrder
 Property theorems only.  `K` is any ordered field (so ℝ and ℚ); `exp log sqrt : K → K`, `pi : K`
 are arbitrary (the statements hold for every interpretation, in particular Mathlib's real functions).
 -/
+set_option linter.unusedSectionVars false
 open Finset
 namespace Pms.LocalOrder
 open Pms
@@ -28,5 +31,149 @@ theorem C17_tetra_perfect (sqrt : K → K) (R : ℕ → ℕ → K) (nb : ℕ →
   rw [C17_tetra_def]
   simp [tetraSpec, pairSumList, h 0 1, h 0 2, h 0 3, h 1 2, h 1 3, h 2 3]
   norm_num
+
+
+/-- the value does not depend on the order in which `argpartition` lists the four neighbours -/
+theorem C17_tetra_order_independent (sqrt : K → K) (R : ℕ → ℕ → K) (nb nb' : ℕ → ℕ)
+    (h : List.Perm [nb' 0, nb' 1, nb' 2, nb' 3] [nb 0, nb 1, nb 2, nb 3]) :
+    tetraImpl sqrt R nb' = tetraImpl sqrt R nb := by
+  rw [C17_tetra_def, C17_tetra_def]
+  unfold tetraSpec
+  rw [pairSumList_perm _ (fun a b => by rw [cosPair_symm]) h]
+
+/-- a selection of four neighbours of `i` that are strictly closer than every other particle -/
+def IsNearestSel (N i : ℕ) (dist : ℕ → K) (l : List ℕ) : Prop :=
+  l.Nodup ∧ l.length = 4 ∧ (∀ a ∈ l, a < N ∧ a ≠ i) ∧
+    ∀ a ∈ l, ∀ b, b < N → b ≠ i → b ∉ l → dist a < dist b
+
+/-- the four nearest neighbours are unique as a set: any two conforming selections are permutations of
+each other, hence (by `C17_tetra_order_independent`) give the same order parameter -/
+theorem C17_tetra_four_nearest (N i : ℕ) (dist : ℕ → K) (l₁ l₂ : List ℕ)
+    (h₁ : IsNearestSel N i dist l₁) (h₂ : IsNearestSel N i dist l₂) : l₁.Perm l₂ := by
+  obtain ⟨nd₁, len₁, mem₁, sep₁⟩ := h₁
+  obtain ⟨nd₂, len₂, mem₂, sep₂⟩ := h₂
+  have sub : l₁ ⊆ l₂ := by
+    intro a ha
+    by_contra hna
+    -- some b ∈ l₂ is not in l₁ (otherwise l₂ ⊆ l₁.erase a, too short)
+    have : ∃ b ∈ l₂, b ∉ l₁ := by
+      by_contra hcon
+      push Not at hcon
+      have hsub : l₂ ⊆ l₁.erase a := by
+        intro b hb
+        have hb1 := hcon b hb
+        refine (List.mem_erase_of_ne ?_).mpr hb1
+        rintro rfl; exact hna hb
+      have hle := (List.subperm_of_subset nd₂ hsub).length_le
+      rw [List.length_erase_of_mem ha] at hle
+      omega
+    obtain ⟨b, hb2, hb1⟩ := this
+    have hab := sep₁ a ha b (mem₂ b hb2).1 (mem₂ b hb2).2 hb1
+    have hba := sep₂ b hb2 a (mem₁ a ha).1 (mem₁ a ha).2 hna
+    exact lt_asymm hab hba
+  exact (List.subperm_of_subset nd₁ sub).perm_of_length_le (by omega)
+
+/-- the value depends on the configuration only through the displacement vectors of the four
+selected neighbours -/
+theorem C17_tetra_local (sqrt : K → K) (R R' : ℕ → ℕ → K) (nb : ℕ → ℕ)
+    (h : ∀ j < 4, ∀ x < 3, R (nb j) x = R' (nb j) x) :
+    tetraImpl sqrt R nb = tetraImpl sqrt R' nb := by
+  have hd : ∀ j < 4, ∀ k < 4, dot 3 (R (nb j)) (R (nb k)) = dot 3 (R' (nb j)) (R' (nb k)) := by
+    intro j hj k hk
+    simp only [dot_eq]
+    exact Finset.sum_congr rfl fun x hx => by
+      rw [h j hj x (Finset.mem_range.mp hx), h k hk x (Finset.mem_range.mp hx)]
+  have hc : ∀ j < 4, ∀ k < 4, cosPair sqrt R (nb j) (nb k) = cosPair sqrt R' (nb j) (nb k) := by
+    intro j hj k hk
+    simp only [cosPair, norm, hd j hj k hk, hd j hj j hj, hd k hk k hk]
+  simp [tetraImpl, pairLoop, sumRange, hc]
+
+/-- `q ≤ 1`, with equality exactly for perfect tetrahedral coordination -/
+theorem C17_tetra_le_one (sqrt : K → K) (R : ℕ → ℕ → K) (nb : ℕ → ℕ) :
+    tetraImpl sqrt R nb ≤ 1 ∧
+    (tetraImpl sqrt R nb = 1 ↔ ∀ j k, j < k → k < 4 → cosPair sqrt R (nb j) (nb k) = -1/3) := by
+  rw [C17_tetra_def]
+  simp only [tetraSpec, pairSumList, List.foldr_cons, List.foldr_nil, add_zero, Nat.cast_ofNat]
+  set c01 := cosPair sqrt R (nb 0) (nb 1)
+  set c02 := cosPair sqrt R (nb 0) (nb 2)
+  set c03 := cosPair sqrt R (nb 0) (nb 3)
+  set c12 := cosPair sqrt R (nb 1) (nb 2)
+  set c13 := cosPair sqrt R (nb 1) (nb 3)
+  set c23 := cosPair sqrt R (nb 2) (nb 3)
+  have s01 := mul_self_nonneg (c01 + 1/3)
+  have s02 := mul_self_nonneg (c02 + 1/3)
+  have s03 := mul_self_nonneg (c03 + 1/3)
+  have s12 := mul_self_nonneg (c12 + 1/3)
+  have s13 := mul_self_nonneg (c13 + 1/3)
+  have s23 := mul_self_nonneg (c23 + 1/3)
+  refine ⟨by linarith, ⟨fun h => ?_, fun h => ?_⟩⟩
+  · have z : ∀ x : K, 0 ≤ (x + 1/3) * (x + 1/3) → (x + 1/3) * (x + 1/3) ≤ 0 → x = -1/3 := by
+      intro x _ h2
+      have : (x + 1/3) * (x + 1/3) = 0 := le_antisymm h2 (mul_self_nonneg _)
+      have := mul_self_eq_zero.mp this
+      linarith
+    intro j k hjk hk
+    have hj : j < 3 := by omega
+    interval_cases k <;> interval_cases j <;> first | omega | (apply z <;> linarith)
+  · have e01 := h 0 1 (by omega) (by omega)
+    have e02 := h 0 2 (by omega) (by omega)
+    have e03 := h 0 3 (by omega) (by omega)
+    have e12 := h 1 2 (by omega) (by omega)
+    have e13 := h 1 3 (by omega) (by omega)
+    have e23 := h 2 3 (by omega) (by omega)
+    simp only [c01, c02, c03, c12, c13, c23] at *
+    rw [e01, e02, e03, e12, e13, e23]; norm_num
+
+
+/-! ## S2 -/
+
+/-- the smeared particle g(r) built by the loop over the deleted-and-filtered arrays is the Gaussian
+sum over all other particles within `rmax`, with the pair-type width, divided by the shell factor -/
+theorem C17_s2_g_def (exp sqrt : K → K) (pi : K) (d N i ndelta : ℕ) (hi : i < N) (rdelta rho : K)
+    (dist : ℕ → K) (typ : ℕ → ℕ) (sig : ℕ → ℕ → K) (k : ℕ) :
+    grImplK exp sqrt pi d N i rdelta rho dist typ sig (keepImpl i dist (rmax rdelta ndelta)) k
+      = gSpec exp sqrt pi d N i ndelta rdelta rho dist typ sig k := by
+  unfold grImplK gSpec keptList keepImpl
+  rw [foldl_filter_range, sumRange_eq]
+  congr 1
+  simp only [decide_eq_true_eq]
+  refine (sum_skip N i hi (fun j => if dist j < rmax rdelta ndelta then
+      gauss exp sqrt pi (bin rdelta k - dist j) (sig (typ i) (typ j)) else 0)).trans ?_
+  refine Finset.sum_congr rfl fun j _ => ?_
+  by_cases h1 : j ≠ i <;> by_cases h2 : dist j < rmax rdelta ndelta <;> simp [h1, h2]
+
+/-- `particle_s2` = `-(d-1) π ρ` × trapezoid rule of `(g ln g - g + 1) r^{d-1}` on the bin centres, with
+`g` the Gaussian-smeared pair distribution of the statement — for every N, particle, dimension, bin
+setting, width matrix and every interpretation of exp / log / sqrt / π -/
+theorem C17_s2_def (exp log sqrt : K → K) (pi : K) (d N i ndelta : ℕ) (hi : i < N) (rdelta rho : K)
+    (dist : ℕ → K) (typ : ℕ → ℕ) (sig : ℕ → ℕ → K) :
+    s2Impl exp log sqrt pi d N i ndelta rdelta rho dist typ sig
+      = s2Spec exp log sqrt pi d N i ndelta rdelta rho dist typ sig := by
+  have hg : grImplK exp sqrt pi d N i rdelta rho dist typ sig (keepImpl i dist (rmax rdelta ndelta))
+      = gSpec exp sqrt pi d N i ndelta rdelta rho dist typ sig :=
+    funext fun k => C17_s2_g_def exp sqrt pi d N i ndelta hi rdelta rho dist typ sig k
+  unfold s2Impl s2ImplK s2Spec s2Integral trapz integrand
+  simp only [hg, sumRange_eq, Finset.mul_sum]
+  refine Finset.sum_congr rfl fun k _ => ?_
+  ring
+
+/-- the trapezoid rule is exact on affine integrands (telescoping): it is the trapezoid rule -/
+theorem C17_trapz_affine (n : ℕ) (x : ℕ → K) (a b : K) :
+    trapz (n + 1) x (fun k => a * x k + b)
+      = a * (x n ^ 2 - x 0 ^ 2) / 2 + b * (x n - x 0) := by
+  unfold trapz
+  rw [sumRange_eq]
+  simp only [Nat.add_sub_cancel, Nat.cast_ofNat]
+  induction n with
+  | zero => simp
+  | succ n ih => rw [Finset.sum_range_succ, ih]; ring
+
+/-- on the uniform bin centres `r_k = k·δ + δ/2` the rule is `δ Σ_k (y_k + y_{k+1})/2` -/
+theorem C17_trapz_uniform (n : ℕ) (rdelta : K) (y : ℕ → K) :
+    trapz n (bin rdelta) y = rdelta * ∑ k ∈ range (n - 1), (y (k + 1) + y k) / 2 := by
+  unfold trapz bin
+  rw [sumRange_eq, Finset.mul_sum]
+  refine Finset.sum_congr rfl fun k _ => ?_
+  push_cast; ring
 
 end Pms.LocalOrder
